@@ -150,10 +150,20 @@ void harness(void)
 {
 	mpq_lpinfo *lp; int rv, cnt, ind[2], vv[2], i, j, f, valid = 1, need = 0;
 	mpq_t val[2], rhs, range; IN_CHAR(sense); IN_INT(rhsv); IN_INT(rngv);
+	mpq_ILLlp_basis *B = 0; char cst0[NS], rst0[NR0];
 	qsv_init_globals();
 	build();
 	lp = qsv_mk_lpinfo(O);
-#ifdef CNT1
+#ifdef WITH_BASIS
+	/* addrow/basis_c*: the caller's basis object is passed: it must grow by one row whose logical is basic, keep every
+	 * other status, and stay untouched when the row is rejected */
+	B = qsv_alloc(sizeof *B); B->nstruct = NS; B->nrows = NR0; B->cstat = qsv_alloc(NS); B->rstat = qsv_alloc(NR0); B->rownorms = 0; B->colnorms = 0;
+	for (j = 0; j < NS; j++) { cst0[j] = (char) ('0' + pick(0, 3)); B->cstat[j] = cst0[j]; }
+	rst0[0] = (char) ('0' + pick(0, 2)); B->rstat[0] = rst0[0];
+#endif
+#ifdef RCNT
+	cnt = RCNT;	/* compile-time entry count (see addcol/grow*) */
+#elif defined(CNT1)
 	cnt = pick(0, 1);
 #else
 	cnt = pick(0, 2);
@@ -168,7 +178,12 @@ void harness(void)
 	/* room in the matrix: worst case every touched column has to move (count + 2 slots each) plus the logical */
 	for (i = 0; i < 2; i++) if (i < cnt && ind[i] >= 0 && ind[i] < NS) need += cnt0[smap[ind[i]]] + 2;
 	(void) need;	/* the free tail (9 slots) covers the worst case of two moved columns (2 x 3) twice over plus the logical: the matrix never reallocates */
-	rv = mpq_ILLlib_addrow(lp, 0, cnt, ind, (const mpq_t *) val, rhs, sense, range, "n");
+	rv = mpq_ILLlib_addrow(lp, B, cnt, ind, (const mpq_t *) val, rhs, sense, range, "n");
+#ifdef WITH_BASIS
+	if (rv != 0) ASSERT(B->nstruct == NS && B->nrows == NR0 && B->rstat[0] == rst0[0] && B->cstat[0] == cst0[0] && B->cstat[1] == cst0[1], "C07: a rejected row leaves the caller's basis untouched");
+	else ASSERT(B->nstruct == NS && B->nrows == NR0 + 1 && B->rstat[0] == rst0[0] && B->rstat[NR0] == QS_ROW_BSTAT_BASIC && B->cstat[0] == cst0[0] && B->cstat[1] == cst0[1],
+		"C06/C12: the caller's basis grows by the new row with its logical basic; every other status is kept");
+#endif
 	ASSERT((rv == 0) == valid, "C07: accepted iff every column index names a structural column, no column is listed twice, the sense is one of L, G, E, R and the name is new");
 	if (rv != 0) {
 		check_wf(NC0, NR0);
@@ -189,7 +204,9 @@ void harness(void)
 			ASSERT(NUMV(O->obj[smap[j]]) == j + 10 && NUMV(O->upper[smap[j]]) == 50 + j, "C06: structural columns keep objective and bounds");
 		}
 	}
-#ifdef CNT1
+#if defined(RCNT)
+	COVER_MUST(rv == 0 && cnt == RCNT, "added");
+#elif defined(CNT1)
 	COVER_MUST(rv == 0 && cnt == 1, "added");
 #else
 	COVER_MUST(rv == 0 && cnt == 2, "added");
